@@ -1,14 +1,15 @@
 CONSTANTS
   Sites <- SiteTable
-  BITS = 5
+  BITS = 7
 SPECIFICATION Spec
 INVARIANT ITypeOK
-INVARIANT IMeaning
+INVARIANT ILaw
 INVARIANT ICount
-INVARIANT IImpl
+INVARIANT IUndefStale
 INVARIANT IShift
 INVARIANT IVacuity
+INVARIANT ILifted
 PROPERTY PShift
-PROPERTY PSlide
+PROPERTY PTick
 PROPERTY PRenew
 CHECK_DEADLOCK FALSE
